@@ -2,6 +2,12 @@
 (***************************************************************************)
 (* C08, code -> spec.  One record per call observed on a live Motl:        *)
 (*   [id, op, a0, b0 (tables before the call), a, b (tables after it),     *)
+(*    uniq, featsid (what get_unique_values / get_feature answer on the   *)
+(*    live object right after the call),                                  *)
+(*    argchg (what the call did to its own arguments: value list, second   *)
+(*    list, list of inputs and its members, self for calls that return a   *)
+(*    new list; "" = nothing), earlier (what it did to results of earlier  *)
+(*    calls of the history; "" = nothing),                                 *)
 (*    cols (column names of every returned table), parts (split only)]     *)
 (* tables are arrays of [sid, tomo, obj, score, cls, tag] as projected by  *)
 (* the driver (tag 0 = the 15 other fields are no longer those of any tag, *)
@@ -32,6 +38,8 @@ IsMerge(t) == t.op.name \in {"merge_renumber", "merge_dropdup"}
 PoolOf(t) == Range(Tbl(t.a0)) \cup Range(Tbl(t.b0)) \cup
              (IF IsMerge(t) THEN Range(Tbl(t.op.a2)) \cup Range(Tbl(t.op.b2)) ELSE {})
 
+QueryFields == <<"sid", "tomo", "obj", "cls">>
+
 Specific(t, T, Bt, P) ==
     LET n == t.op.name IN
     CASE n = "subset" -> IF SubsetExact(T, t.op.f, t.op.vals, P) THEN "none" ELSE "C08_SubsetExact"
@@ -52,9 +60,17 @@ Failing(t) ==
         Bt == Tbl(t.b0)
         P == Tbl(t.a)
         Q == Tbl(t.b)
-    IN  IF \E k \in DOMAIN t.cols : ~Schema(t.cols[k]) THEN "C08_Schema"
+    IN  \* frame conditions of the call, observed by the driver's argument guard (mbt/argguard.py): "" = nothing changed
+        IF t.argchg # "" THEN "C08_ArgumentsUntouched"
+        ELSE IF t.earlier # "" THEN "C08_EarlierResultsUntouched"
+        ELSE IF \E k \in DOMAIN t.cols : ~Schema(t.cols[k]) THEN "C08_Schema"
         ELSE IF ~TagsIntact(PoolOf(t), Touched(t.op.name), P) \/ Q # Bt THEN "C08_TagsIntact"
-        ELSE Specific(t, T, Bt, P)
+        ELSE IF Specific(t, T, Bt, P) # "none" THEN Specific(t, T, Bt, P)
+        \* the read-only queries made on the live object right after the call describe the CURRENT table:
+        \* t.uniq[m] = get_unique_values of key column m (sid, tomo, obj, cls), t.featsid = get_feature("subtomo_id")
+        ELSE IF \E m \in 1..4 : t.uniq[m] # DistinctSeq(P, QueryFields[m]) THEN "C08_QueriesCurrent"
+        ELSE IF t.featsid # [k \in DOMAIN P |-> P[k].sid] THEN "C08_QueriesCurrent"
+        ELSE "none"
 
 TraceInit == tid \in 1..Len(Traces) /\ done = FALSE
 TraceNext == ~done /\ done' = TRUE /\ UNCHANGED tid
